@@ -1131,8 +1131,9 @@ def explore(ctx):
                     if s["kind"] == "ok" and s["model_ok"] and s["depth"] >= 2 and s["envdepth"] >= 2:
                         # a successful nested selection whose innermost parser has variables in the environment:
                         # there the mode must have reached (or been withdrawn from) every level
-                        ctx.count("envmode-decides-nested-settings:" + s["envmode"] + ":" + "+".join(s["hows"][:2]))
                         ctx.count("envmode-decides-nested-settings:" + s["envmode"])
+                        if s["hows"][:2] == ["argv", "argv"]:
+                            ctx.count("envmode-decides-nested-settings:" + s["envmode"] + ":both-levels-on-argv")
             for sig, detail in devs:
                 ctx.deviation(sig, case, detail)
 
@@ -1210,7 +1211,7 @@ def explore(ctx):
         ctx.require(c.get("envmode:" + mode, 0) > 100, f"environment switched by mode {mode!r} exercised")
         ctx.require(
             c.get("envmode-decides-nested-settings:" + mode, 0) > 10
-            and c.get("envmode-decides-nested-settings:" + mode + ":argv+argv", 0) > 0,
+            and c.get("envmode-decides-nested-settings:" + mode + ":both-levels-on-argv", 0) > 0,
             f"mode {mode!r}: successful nested selections (also with both levels named on argv) whose innermost parser "
             "has environment variables",
         )
